@@ -400,7 +400,8 @@ def command_alphabet(w, tier):
 
 def work_b(task):
     """command-level sequences: init x cmd x cmd (and sequences without init)."""
-    tier, w, part, nparts = task[1:]
+    tier, w, part, nparts = task[1:5]
+    modes = len(task) > 5 and task[5] == 'modes'
     StubMemory = screen_classes()
     from flipjump.interpreter.io_devices.ScreenIO import InMemoryScreen
     S1, S2, A1, A2 = screen_regions(w)
@@ -411,9 +412,20 @@ def work_b(task):
     depth = 3 if tier == 'thorough' else 2
     seqs = []
     firsts = inits + others
+    tail_alphabet = others + inits[:3]
+    if modes:
+        # mode switches: long streams (5 / 6 commands) over a small alphabet - three screen modes, two palettes, three ways to present
+        def pick(kind, pred=lambda bs: True):
+            return [c for c in inits + others if c[0].startswith(kind) and pred(c[1])][:1]
+        le2 = lambda v: [v & 0xFF, v >> 8]  # noqa
+        firsts = [c for c in inits if c[1][1:8] in ([*le2(2), *le2(1), 8, *le2(2)], [*le2(2), *le2(1), 4, *le2(17)], [*le2(1), *le2(1), 8, *le2(2)])]
+        tail_alphabet = firsts + [c for c in others if c[0] == 'pal'] + [c for c in others if c[0] == 'upd'][:1] + \
+            [c for c in others if c[0] == 'rect'][:1] + [c for c in others if c[0] in ('raw1', 'raw2')]
+        depth = 5 if tier == 'thorough' else 4
+        assert len(firsts) == 3 and len(tail_alphabet) >= 8, (len(firsts), len(tail_alphabet))
     idx = 0
     for first in firsts:
-        tails = itertools.chain.from_iterable(itertools.product(others + inits[:3], repeat=d) for d in range(0, depth + 1))
+        tails = itertools.chain.from_iterable(itertools.product(tail_alphabet, repeat=d) for d in range(0, depth + 1))
         for tail in tails:
             idx += 1
             if idx % nparts != part:
@@ -592,6 +604,8 @@ def make_tasks(tier, only):
     for w in (16, 32, 64):
         for p in range(6):
             tasks.append(('B', tier, w, p, 6))
+        for p in range(8):
+            tasks.append(('B', tier, w, p, 8, 'modes'))
         for first in (('cmd', 0), ('cmd', 1), ('cmd', 2), ('cmd', 3), ('cmd', 4), ('cmd', 5), ('cmd', 6), ('cmd', 0xFF),
                       ('init', 1), ('init', 2), ('init', 3), ('init', 4), ('init', 5), ('init', 0)):
             tasks.append(('Bb', tier, w, first))
